@@ -76,12 +76,41 @@ type clientOp struct {
 	Kinds []string `json:"kinds"`
 	Emit  bool     `json:"emit"`
 	Sig   bool     `json:"sig"` // exec: pass a signalsToStep channel that the caller leaves open
+	// reply: the debug logs the work-done carries: "" | lf | crlf | cr (a progress bar redrawn with bare CRs) | blank
+	// (only line ends) | long
+	Logs string `json:"logs"`
+}
+
+// debugLogs renders a debug-log class of a scripted work-done.
+func debugLogs(class string) string {
+	switch class {
+	case "lf":
+		return "first line\nsecond line\n"
+	case "crlf":
+		return "first line\r\nsecond line\r\n"
+	case "cr":
+		return "progress 10%\rprogress 50%\rprogress 100%\rdone\n"
+	case "blank":
+		return "\n\r\n\n\r"
+	case "long":
+		return strings.Repeat("a fairly long debug line without any meaning\n", 200) + "last line without line end"
+	}
+	return ""
 }
 
 type faultSpec struct {
-	Kind  string `json:"kind"` // eof | ioerr | corrupt
+	Kind  string `json:"kind"` // eof | ioerr | corrupt | bitflip
 	At    int64  `json:"at"`   // byte offset of the server-to-client stream (after the hello unless Hello is set)
 	Hello bool   `json:"hello"`
+	Mask  int    `json:"mask"` // bitflip: the bit(s) inverted at that offset (0 = the lowest bit)
+}
+
+// flipMask is the mask a bitflip fault applies.
+func (f *faultSpec) flipMask() byte {
+	if f.Mask > 0 && f.Mask < 256 {
+		return byte(f.Mask)
+	}
+	return 0x01
 }
 
 type scenario struct {
@@ -102,7 +131,10 @@ type scenario struct {
 	Delay2Key string     `json:"delay2_key"` // optional second held gate occurrence (pairs of delays)
 	Delay2Nth int        `json:"delay2_nth"`
 	Seed      int64      `json:"seed"`
-	ID        string     `json:"id"`
+	// v1echo: the plugin writes its work-done as legacy v1 plugins did - no step_id key (the field came with the v2
+	// envelope), debug logs present
+	V1Legacy bool   `json:"v1_legacy"`
+	ID       string `json:"id"`
 }
 
 type execResult struct {
@@ -116,22 +148,26 @@ type execResult struct {
 }
 
 type result struct {
-	ID            string                `json:"id"`
-	Events        []sched.Event         `json:"events"`
-	Results       map[string]execResult `json:"results"`
-	CloseRet      bool                  `json:"close_ret"`
-	CloseErr      string                `json:"close_err,omitempty"`
-	ServerRet     bool                  `json:"server_ret"`
-	ServerErrs    int                   `json:"server_errs"`
-	Stuck         bool                  `json:"stuck"`
-	ServerStalled bool                  `json:"server_stalled"`
-	StuckDetail   []string              `json:"stuck_detail,omitempty"`
-	FollowErr     string                `json:"follow_err,omitempty"`
-	FollowAt      int                   `json:"follow_at"`
-	Gates         []string              `json:"gates,omitempty"`
-	DelayHit      bool                  `json:"delay_hit"`
-	Steps         int                   `json:"steps"`
-	Panic         string                `json:"panic,omitempty"`
+	ID         string                `json:"id"`
+	Events     []sched.Event         `json:"events"`
+	Results    map[string]execResult `json:"results"`
+	CloseRet   bool                  `json:"close_ret"`
+	CloseErr   string                `json:"close_err,omitempty"`
+	ServerRet  bool                  `json:"server_ret"`
+	ServerErrs int                   `json:"server_errs"`
+	// server sessions: the ServerErrors RunATPServer returned and the error messages it wrote, both as
+	// "run|stepFatal|serverFatal|text", in order
+	ServerErrList []string `json:"server_err_list,omitempty"`
+	WireErrList   []string `json:"wire_err_list,omitempty"`
+	Stuck         bool     `json:"stuck"`
+	ServerStalled bool     `json:"server_stalled"`
+	StuckDetail   []string `json:"stuck_detail,omitempty"`
+	FollowErr     string   `json:"follow_err,omitempty"`
+	FollowAt      int      `json:"follow_at"`
+	Gates         []string `json:"gates,omitempty"`
+	DelayHit      bool     `json:"delay_hit"`
+	Steps         int      `json:"steps"`
+	Panic         string   `json:"panic,omitempty"`
 	// server mode
 	Accepted  map[string]int `json:"accepted,omitempty"`
 	Terminals map[string]int `json:"terminals,omitempty"`
@@ -165,6 +201,8 @@ type world struct {
 	mu         sync.Mutex
 	sigTo      map[string]chan schema.Input
 	sigFrm     map[string]chan schema.Input
+	initCalls  int // calls of the "initfail" step's initializer in this session
+	srvErrList []string
 	sigStop    map[string]chan struct{}
 	sigSenders map[string][]chan struct{}
 	callWG     sync.WaitGroup
@@ -232,7 +270,7 @@ func (w *world) plugin() *schema.CallableSchema {
 			return "success", stepOut{Message: "hello " + in.Name}
 		},
 	)
-	return schema.NewCallableSchema(step, echoStep(), optStep(), waitsigStep())
+	return schema.NewCallableSchema(step, echoStep(), optStep(), waitsigStep(), w.initfailStep())
 }
 
 // ------------------------------------------------------------------ hook classification
@@ -679,6 +717,20 @@ func (w *world) start() error {
 		errs := atp.RunATPServer(ctx, sched.ReadEnd{P: w.c2s}, sched.WriteEnd{P: w.s2c}, plug)
 		// a plugin process that exits closes its output
 		w.s2c.CloseWrite()
+		w.mu.Lock()
+		for _, e := range errs {
+			// what the caller of RunATPServer is told, entry by entry (the entries must be distinct values)
+			if e == nil {
+				w.srvErrList = append(w.srvErrList, "<nil>")
+				continue
+			}
+			text := "<nil>"
+			if e.Err != nil {
+				text = e.Err.Error()
+			}
+			w.srvErrList = append(w.srvErrList, fmt.Sprintf("%s|%t|%t|%s", e.RunID, e.StepFatal, e.ServerFatal, text))
+		}
+		w.mu.Unlock()
 		w.srvC <- len(errs)
 	}()
 	w.cli = atp.NewClientWithLogger(sched.Duplex{In: w.s2c, Out: w.c2s}, nil)
@@ -766,6 +818,10 @@ func runScenario(sc scenario) (res *result) {
 	}
 	if sc.Mode == "sharedsig" {
 		runSharedSig(sc, res)
+		return
+	}
+	if sc.Mode == "reusesig" {
+		runReuseSig(sc, res)
 		return
 	}
 	if sc.Mode == "v1echo" {
@@ -983,6 +1039,8 @@ func clientMessage(op scriptOp) []byte {
 		switch op.Variant {
 		case "unknown_step":
 			stepID = "nope"
+		case "init_step":
+			stepID = "initfail" // a step with an initializer (which panics for the first run of a session that asks for it)
 		case "bad_input":
 			cfg = "not a map"
 		case "no_run":
@@ -1078,6 +1136,9 @@ func (w *world) serverSession(res *result) {
 				var e atp.ErrorMessage
 				_ = cbor.Unmarshal(m.RawMessageData, &e)
 				kind = "err"
+				w.mu.Lock()
+				res.WireErrList = append(res.WireErrList, fmt.Sprintf("%s|%t|%t|%s", m.RunID, e.StepFatal, e.ServerFatal, e.Error))
+				w.mu.Unlock()
 				if e.ServerFatal {
 					kind = "err_server"
 				} else if e.StepFatal {
@@ -1219,6 +1280,9 @@ func (w *world) serverSession(res *result) {
 			res.ServerRet = true
 			res.ServerErrs = n
 			<-readerDone
+			w.mu.Lock()
+			res.ServerErrList = append([]string{}, w.srvErrList...)
+			w.mu.Unlock()
 			for _, e := range w.s.Events() {
 				if e.Point == "s.start" {
 					if r, ok := e.KV["run"].(string); ok {
@@ -1301,7 +1365,11 @@ func runV1Echo(sc scenario, res *result) {
 			if err != nil {
 				return // v1 has no error message: the plugin gives up
 			}
-			if enc.Encode(atp.WorkDoneMessage{StepID: ws.StepID, OutputID: id, OutputData: data}) != nil {
+			var wd any = atp.WorkDoneMessage{StepID: ws.StepID, OutputID: id, OutputData: data}
+			if sc.V1Legacy {
+				wd = map[string]any{"output_id": id, "output_data": data, "debug_logs": debugLogs([]string{"lf", "cr", "crlf", "blank", "long"}[n%5])}
+			}
+			if enc.Encode(wd) != nil {
 				return
 			}
 		}
@@ -1324,6 +1392,22 @@ func runV1Echo(sc scenario, res *result) {
 			}
 			return
 		}
+		if rs.Sig {
+			// a caller that passed a signalsToStep channel closes it once its call is back (the v1 framing has no
+			// signals: the channel is simply not used)
+			w.closeSignal(rs.ID)
+			w.s.WaitSettled(stepTimeout)
+		}
+	}
+	// Close returns (a v1 session has no read loop and no client-done message to wait for)
+	closed := make(chan error, 1)
+	go func() { closed <- w.cli.Close() }()
+	select {
+	case <-closed:
+		res.CloseRet = true
+	case <-time.After(8 * time.Second):
+		res.Stuck = true
+		res.StuckDetail = append(res.StuckDetail, "Close does not return")
 	}
 	w.c2s.CloseWrite()
 	w.mu.Lock()
@@ -1534,7 +1618,8 @@ func runClientScenario(sc scenario, res *result) {
 				w.s.Emit(g, "f.reply", map[string]any{"run": op.Run, "kind": "ok"})
 				fs.legit[op.Run] = true
 				put(enc(atp.RuntimeMessage{MessageID: atp.MessageTypeWorkDone, RunID: op.Run,
-					MessageData: atp.WorkDoneMessage{StepID: "step", OutputID: "success", OutputData: map[string]any{"message": "hello " + op.Run}}}))
+					MessageData: atp.WorkDoneMessage{StepID: "step", OutputID: "success", OutputData: map[string]any{"message": "hello " + op.Run},
+						DebugLogs: debugLogs(op.Logs)}}))
 			}
 		case "unsol":
 			if outClosed {
@@ -1677,7 +1762,7 @@ func applyFault(p *sched.Pipe, f *faultSpec, base int64) {
 		p.FlipAt = base + f.At
 	case "bitflip":
 		p.FlipAt = base + f.At
-		p.FlipMask = 0x01
+		p.FlipMask = f.flipMask()
 	}
 }
 
@@ -1689,7 +1774,7 @@ func independentStream(stream []byte, f *faultSpec, version int64) string {
 	if f.At >= 0 && f.At < int64(len(b)) {
 		m := byte(0xff)
 		if f.Kind == "bitflip" {
-			m = 0x01
+			m = f.flipMask()
 		}
 		b[f.At] ^= m
 	}
@@ -1747,7 +1832,7 @@ func independentDecode(frames [][]byte, f *faultSpec, version int64) []string {
 				}
 			case "bitflip":
 				if f.At >= start && f.At < end {
-					b[f.At-start] ^= 0x01
+					b[f.At-start] ^= f.flipMask()
 				}
 			}
 		}
